@@ -510,3 +510,8 @@ Section NieceView.
              (numleaves numdels : N) : list byte :=
     encode_pollard (mkPimage numleaves numdels (niece_view f)).
 End NieceView.
+Arguments is_leafc {H} t.
+Arguments enc2 {H} bytes_of x y.
+Arguments root_view {H} bytes_of o.
+Arguments niece_view {H} bytes_of f.
+Arguments encode_pollard_of_forest {H} bytes_of f numleaves numdels.
